@@ -53,7 +53,10 @@
 
    Statements:
      SELECT: every ORDER BY name is a field name of type String / Number / Boolean;
-             WHERE : Boolean; every field typable; aggregates placed as above.
+             WHERE : Boolean; every field typable; aggregates placed as above -- all under the
+             environment in which every field name has the type of its definition, the
+             definitions typed under that same environment (fields may use fields defined
+             before or after them; [select_env]).
      PUT (k, v): k, v : String or Number; `value` nowhere; `key` only inside v.
      REMOVE k: k : String or Number; neither `key` nor `value`.
      DELETE WHERE w: w : Boolean. *)
@@ -318,13 +321,31 @@ Fixpoint field_named (fields : list (string * expr)) (s : string) : option expr 
   | (n, d) :: fields' => if String.eqb n s then Some d else field_named fields' s
   end.
 
-(* SELECT whose field definitions use no field names themselves: the environment gives each
-   name the type of its definition *)
+(* SELECT.  A field name is an abbreviation of its definition, so it has the definition's
+   type -- and the definition may itself use field names, defined before or after it in the
+   list (what it may not do is refer to itself, directly or through other fields: the parser
+   rejects that before any type is asked for).  The environment of a SELECT is therefore the
+   fixed point of "give every name the type its definition has under the environment".
+   Reference chains are acyclic and visit a field at most once, so the fixed point is reached
+   after as many rounds as there are fields: round 0 knows no name; in round k+1 a name has the
+   type its definition has under round k ([SUnknown] if it has none).  A name defined twice
+   means its first definition.  (With definitions that use no field names one round is
+   enough: the name has the type of its definition under the empty environment.) *)
+Fixpoint select_env_n (fields : list (string * expr)) (k : nat) : env :=
+  match k with
+  | 0 => no_env
+  | S k' =>
+      fun s => match field_named fields s with
+               | Some d => match infer (select_env_n fields k') all_allowed d with
+                           | Some t => Some t
+                           | None => Some SUnknown
+                           end
+               | None => None
+               end
+  end.
+
 Definition select_env (fields : list (string * expr)) : env :=
-  fun s => match field_named fields s with
-           | Some d => match infer no_env all_allowed d with Some t => Some t | None => Some SUnknown end
-           | None => None
-           end.
+  select_env_n fields (List.length fields).
 
 Definition select_typed (fields : list (string * expr)) (w : expr) (order : list (nat * string)) : bool :=
   let E := select_env fields in
